@@ -283,6 +283,18 @@ def everyNormalEndDid (p : A → Bool) (sk : Sk) : Bool :=
 
 def isSetOf (name : String) (a : A) : Bool := a.kind == .set && a.name == name
 
+/-- "`guarded` only under both guards": bit 0 = `g1` seen, bit 1 = `g2` seen since the last `reset`; a `guarded` event in any other
+state than 3 is the violation -/
+def guardMon (reset g1 g2 guarded : Ev → Bool) : Mon := fun s e =>
+  if reset e then some 0
+  else if guarded e then (if s == 3 then some s else none)
+  else if g1 e then some (s ||| 1)
+  else if g2 e then some (s ||| 2)
+  else some s
+
+def onlyUnderBothGuards (reset g1 g2 guarded : Ev → Bool) (sk : Sk) : Bool :=
+  (scan (guardMon reset g1 g2 guarded) 4 sk [0]).isSome
+
 /-! ### "this piece of code never suspends" -/
 
 /-- number of suspension points in a skeleton -/
